@@ -324,13 +324,140 @@ def rule_index(program, ctx):
             ctx.ok(rid, l, f"{fn.name}: every tag of event.tags is considered, 'expiration' included")
 
 
+def rule_complete(program, ctx):
+    rid = ctx.rule(
+        "C17.complete",
+        "LMDB collector completeness (every ephemeral / expired event is removed): each range walk is entered when the range start exists (never only when "
+        "`cursor.set_range(start)` is false); inside a walk every key that does not take the `break` reaches a statement that collects `key[-32:].hex()`; "
+        "every collected id is handed to `await self.storage.delete_event(id)` in a loop over the whole list that is not skipped when the list is non-empty",
+        floor=2,
+    )
+    from ..lib import expand_aliases, must_pass, test_edges, NORMAL
+    kc = program.func("nostr_relay.storage.kv:KVGarbageCollector.collect")
+    gcc = program.cls("nostr_relay.storage.kv:KVGarbageCollector")
+    fns = [kc] + [f for name, f in gcc.methods.items() if f is not kc and any(isinstance(l, ast.For) and "iternext" in ast.unparse(l.iter) for l in walk_no_nested(f))]
+    for fn in fns:
+        cfg = cfg_of(fn)
+
+        def neg_range(expr, pol):
+            return isinstance(expr, ast.Call) and call_name(expr).endswith(".set_range") and not pol
+
+        neg = test_edges(cfg, neg_range)
+        for l in [l for l in walk_no_nested(fn) if isinstance(l, ast.For) and "iternext" in ast.unparse(l.iter)]:
+            if not isinstance(l.target, ast.Name):
+                continue
+            key = l.target.id
+            heads = [n for n in cfg.nodes_of(l) if cfg.kind_of(n) == "loop"]
+            if not heads:
+                continue
+            if not must_pass(cfg, neg, heads, kinds=NORMAL):
+                ctx.bad(finding_at(P, rid, l, "the range walk is entered only when cursor.set_range(start) found nothing: the range is never collected"))
+                continue
+            inside = {id(x) for x in ast.walk(l)}
+            want = f"{key}[-32:].hex()"
+
+            # names bound to the id inside the walk: v = key[-32:].hex(), the only store to v in the loop
+            id_assigns = {}
+            for st in ast.walk(l):
+                if isinstance(st, ast.Assign) and len(st.targets) == 1 and isinstance(st.targets[0], ast.Name):
+                    id_assigns.setdefault(st.targets[0].id, []).append(st)
+            id_names = {v: sts[0] for v, sts in id_assigns.items() if len(sts) == 1 and ast.unparse(sts[0].value) == want}
+
+            def is_id(e):
+                if ast.unparse(expand_aliases(fn, e)) == want:
+                    return True
+                return isinstance(e, ast.Name) and e.id in id_names
+
+            def collects(st):
+                if id(st) not in inside or isinstance(st, (ast.For, ast.While, ast.If, ast.Try, ast.With)):
+                    return False
+                for c in ast.walk(st):
+                    if isinstance(c, ast.Call) and isinstance(c.func, ast.Attribute) and c.func.attr in ("append", "add") and c.args and is_id(c.args[0]):
+                        return True
+                    if isinstance(c, ast.Yield) and c.value is not None and is_id(c.value):
+                        return True
+                return False
+
+            coll = cfg.stmt_nodes(collects, kinds=("stmt",))
+            brk = cfg.stmt_nodes(lambda st: isinstance(st, ast.Break) and id(st) in inside, kinds=("stmt",))
+            if not coll:
+                ctx.bad(finding_at(P, rid, l, f"the range walk collects nothing of the form `{want}` (the event id is the last 32 bytes of the index key)"))
+                continue
+            bad_path = []
+            for h in heads:
+                starts = list(cfg.succ(h, {"t"}))
+                bad_path = cfg.find_path(starts, [h], avoid_nodes=set(coll) | set(brk), kinds=NORMAL)
+                if bad_path:
+                    break
+            if not bad_path:
+                for cn in coll:
+                    for c in ast.walk(cfg.ast_of(cn)):
+                        if isinstance(c, ast.Call) and isinstance(c.func, ast.Attribute) and c.func.attr in ("append", "add") and c.args and isinstance(c.args[0], ast.Name) and c.args[0].id in id_names:
+                            an = cfg.nodes_of(id_names[c.args[0].id])
+                            for h in heads:
+                                stale = cfg.find_path(list(cfg.succ(h, {"t"})), [cn], avoid_nodes=set(an), kinds=NORMAL)
+                                if stale:
+                                    bad_path = stale
+            if bad_path:
+                ctx.bad(finding_at(P, rid, l, "a key inside the range can pass through the walk without being collected: " + " -> ".join(cfg.describe_path(bad_path)[:5])))
+            else:
+                ctx.ok(rid, l, f"{qual_of(l)}: every in-range key is collected as `{want}`")
+    # deletion of the whole list
+    cfg = cfg_of(kc)
+    dels = [c for c in walk_no_nested(kc) if isinstance(c, ast.Call) and call_name(c) == "self.storage.delete_event"]
+    good = False
+    for c in dels:
+        loop = next((a for a in ancestors(c) if isinstance(a, (ast.For, ast.AsyncFor))), None)
+        awaited = isinstance(getattr(c, "_parent", None), ast.Await)
+        if loop is None or not isinstance(loop.target, ast.Name) or not c.args or dotted(c.args[0]) != loop.target.id or not awaited:
+            continue
+        src = ast.unparse(loop.iter)
+        if src not in ("to_del", "set(to_del)", "list(to_del)", "sorted(to_del)", "sorted(set(to_del))"):
+            ctx.bad(finding_at(P, rid, loop, f"the deletion loop iterates `{src}`, not the whole collected list"))
+            good = None
+            continue
+        if any(isinstance(b, (ast.Break, ast.Return)) for b in ast.walk(loop)):
+            ctx.bad(finding_at(P, rid, loop, "the deletion loop can stop before the last collected id"))
+            good = None
+            continue
+
+        def neg_list(expr, pol):
+            if isinstance(expr, ast.Name) and expr.id == "to_del":
+                return not pol
+            if isinstance(expr, ast.Call) and call_name(expr) == "len" and expr.args and dotted(expr.args[0]) == "to_del":
+                return not pol
+            if isinstance(expr, ast.Compare) and len(expr.ops) == 1 and "to_del" in ast.unparse(expr.left) and isinstance(expr.comparators[0], ast.Constant) and expr.comparators[0].value == 0:
+                return (isinstance(expr.ops[0], ast.Gt) and not pol) or (isinstance(expr.ops[0], ast.Eq) and pol)
+            return False
+
+        heads = [n for n in cfg.nodes_of(loop) if cfg.kind_of(n) == "loop"]
+        if heads and not must_pass(cfg, test_edges(cfg, neg_list), heads, kinds=NORMAL):
+            ctx.bad(finding_at(P, rid, loop, "the deletion loop runs only when the collected list is empty"))
+            good = None
+            continue
+        if good is False:
+            good = True
+            ctx.ok(rid, loop, "every collected id is awaited through storage.delete_event")
+    if good is False:
+        ctx.bad(finding_func(P, rid, kc, "collect() no longer awaits storage.delete_event(id) for each id of the collected list", text="def collect(...) :: delete loop"))
+
+
 def run(program, ctx):
+    from ..lib import rule_awaited
+
+    rule_awaited(program, ctx, P, ANCHORS)
     rule_index(program, ctx)
     rule_range(program, ctx)
     rule_sources(program, ctx)
+    rule_complete(program, ctx)
     rule_order(program, ctx)
     rule_bypass(program, ctx)
     rule_driver(program, ctx)
+    from . import c01, c07
+
+    # 'together with all their index entries': the SQL collector deletes event rows only - the tag rows go through ON DELETE CASCADE, which needs the per-connection pragma
+    c07.rule_cascade(program, ctx, prop=P, rid="C17.cascade")
+    c01.rule_tagindex(program, ctx, prop=P, rid="C17.tagindex")
     ctx.note("informational: the LMDB GC's end key to_key(29999) is a strict prefix of every kind-29999 key, so `key > end` stops before them; moot today because "
              "ephemeral events are never written to LMDB (C17.bypass)")
     ctx.not_decided += [
